@@ -121,4 +121,35 @@ theorem gen_changed_line_written_in_place :
        [110, 101, 119, 108, 105, 110, 101, 32, 124, 32, 33, 116, 114, 97, 99, 107, 78, 111, 77, 111, 100, 105, 102, 121, 65, 116, 116, 114, 115, 70, 108, 97, 103]
       ] := by decide
 
+set_option maxRecDepth 100000 in
+/-- tie to commands/command_track.go: which known lines `track` passes over when it looks for the line that already
+    supports its argument (TrkSeq.about: another pattern; not the exact spelling when there is one; in the file being
+    written — and only there — the rooted spelling of a sub-directory against the unrooted one), where it stops
+    ("already supported": `continue ArgsLoop`), and how `sameFile`, `knownPath` and `exact` are computed.  The last
+    entries of the first block are the blank-line, blocklist and error skips of the later loops. -/
+theorem gen_track_known_line_skips :
+    Gen.trackKnownSkips =
+      [
+       -- continue | !trackNoModifyAttrsFlag && knownPath != path.Join(relpath, pattern) && !(relpath == "." && knownPath == pattern)
+       [99, 111, 110, 116, 105, 110, 117, 101, 32, 124, 32, 33, 116, 114, 97, 99, 107, 78, 111, 77, 111, 100, 105, 102, 121, 65, 116, 116, 114, 115, 70, 108, 97, 103, 32, 38, 38, 32, 107, 110, 111, 119, 110, 80, 97, 116, 104, 32, 33, 61, 32, 112, 97, 116, 104, 46, 74, 111, 105, 110, 40, 114, 101, 108, 112, 97, 116, 104, 44, 32, 112, 97, 116, 116, 101, 114, 110, 41, 32, 38, 38, 32, 33, 40, 114, 101, 108, 112, 97, 116, 104, 32, 61, 61, 32, 34, 46, 34, 32, 38, 38, 32, 107, 110, 111, 119, 110, 80, 97, 116, 104, 32, 61, 61, 32, 112, 97, 116, 116, 101, 114, 110, 41],
+       -- continue | !trackNoModifyAttrsFlag && exact && knownPath != pattern
+       [99, 111, 110, 116, 105, 110, 117, 101, 32, 124, 32, 33, 116, 114, 97, 99, 107, 78, 111, 77, 111, 100, 105, 102, 121, 65, 116, 116, 114, 115, 70, 108, 97, 103, 32, 38, 38, 32, 101, 120, 97, 99, 116, 32, 38, 38, 32, 107, 110, 111, 119, 110, 80, 97, 116, 104, 32, 33, 61, 32, 112, 97, 116, 116, 101, 114, 110],
+       -- continue | !trackNoModifyAttrsFlag && sameFile && relpath != "." && known.AnyDepth != !strings.Contains(strings.TrimSuffix(pattern, "/"), "/")
+       [99, 111, 110, 116, 105, 110, 117, 101, 32, 124, 32, 33, 116, 114, 97, 99, 107, 78, 111, 77, 111, 100, 105, 102, 121, 65, 116, 116, 114, 115, 70, 108, 97, 103, 32, 38, 38, 32, 115, 97, 109, 101, 70, 105, 108, 101, 32, 38, 38, 32, 114, 101, 108, 112, 97, 116, 104, 32, 33, 61, 32, 34, 46, 34, 32, 38, 38, 32, 107, 110, 111, 119, 110, 46, 65, 110, 121, 68, 101, 112, 116, 104, 32, 33, 61, 32, 33, 115, 116, 114, 105, 110, 103, 115, 46, 67, 111, 110, 116, 97, 105, 110, 115, 40, 115, 116, 114, 105, 110, 103, 115, 46, 84, 114, 105, 109, 83, 117, 102, 102, 105, 120, 40, 112, 97, 116, 116, 101, 114, 110, 44, 32, 34, 47, 34, 41, 44, 32, 34, 47, 34, 41],
+       -- continue ArgsLoop | !trackNoModifyAttrsFlag && known.Tracked && ((trackLockableFlag && known.Lockable) || (trackNotLockableFlag && !known.Lockable) || (!trackLockableFlag && !trackNotLockableFlag))
+       [99, 111, 110, 116, 105, 110, 117, 101, 32, 65, 114, 103, 115, 76, 111, 111, 112, 32, 124, 32, 33, 116, 114, 97, 99, 107, 78, 111, 77, 111, 100, 105, 102, 121, 65, 116, 116, 114, 115, 70, 108, 97, 103, 32, 38, 38, 32, 107, 110, 111, 119, 110, 46, 84, 114, 97, 99, 107, 101, 100, 32, 38, 38, 32, 40, 40, 116, 114, 97, 99, 107, 76, 111, 99, 107, 97, 98, 108, 101, 70, 108, 97, 103, 32, 38, 38, 32, 107, 110, 111, 119, 110, 46, 76, 111, 99, 107, 97, 98, 108, 101, 41, 32, 124, 124, 32, 40, 116, 114, 97, 99, 107, 78, 111, 116, 76, 111, 99, 107, 97, 98, 108, 101, 70, 108, 97, 103, 32, 38, 38, 32, 33, 107, 110, 111, 119, 110, 46, 76, 111, 99, 107, 97, 98, 108, 101, 41, 32, 124, 124, 32, 40, 33, 116, 114, 97, 99, 107, 76, 111, 99, 107, 97, 98, 108, 101, 70, 108, 97, 103, 32, 38, 38, 32, 33, 116, 114, 97, 99, 107, 78, 111, 116, 76, 111, 99, 107, 97, 98, 108, 101, 70, 108, 97, 103, 41, 41],
+       -- continue | !trackNoModifyAttrsFlag && len(attribContents) > 0 && len(fields) < 1
+       [99, 111, 110, 116, 105, 110, 117, 101, 32, 124, 32, 33, 116, 114, 97, 99, 107, 78, 111, 77, 111, 100, 105, 102, 121, 65, 116, 116, 114, 115, 70, 108, 97, 103, 32, 38, 38, 32, 108, 101, 110, 40, 97, 116, 116, 114, 105, 98, 67, 111, 110, 116, 101, 110, 116, 115, 41, 32, 62, 32, 48, 32, 38, 38, 32, 108, 101, 110, 40, 102, 105, 101, 108, 100, 115, 41, 32, 60, 32, 49],
+       -- continue | matchedBlocklist
+       [99, 111, 110, 116, 105, 110, 117, 101, 32, 124, 32, 109, 97, 116, 99, 104, 101, 100, 66, 108, 111, 99, 107, 108, 105, 115, 116],
+       -- continue | !trackDryRunFlag && err != nil
+       [99, 111, 110, 116, 105, 110, 117, 101, 32, 124, 32, 33, 116, 114, 97, 99, 107, 68, 114, 121, 82, 117, 110, 70, 108, 97, 103, 32, 38, 38, 32, 101, 114, 114, 32, 33, 61, 32, 110, 105, 108],
+       -- sameFile := path.Dir(filepath.ToSlash(known.Source.Path)) == filepath.ToSlash(relpath) | !trackNoModifyAttrsFlag
+       [115, 97, 109, 101, 70, 105, 108, 101, 32, 58, 61, 32, 112, 97, 116, 104, 46, 68, 105, 114, 40, 102, 105, 108, 101, 112, 97, 116, 104, 46, 84, 111, 83, 108, 97, 115, 104, 40, 107, 110, 111, 119, 110, 46, 83, 111, 117, 114, 99, 101, 46, 80, 97, 116, 104, 41, 41, 32, 61, 61, 32, 102, 105, 108, 101, 112, 97, 116, 104, 46, 84, 111, 83, 108, 97, 115, 104, 40, 114, 101, 108, 112, 97, 116, 104, 41, 32, 124, 32, 33, 116, 114, 97, 99, 107, 78, 111, 77, 111, 100, 105, 102, 121, 65, 116, 116, 114, 115, 70, 108, 97, 103],
+       -- knownPath := unescapeAttrPattern(known.Path) | !trackNoModifyAttrsFlag
+       [107, 110, 111, 119, 110, 80, 97, 116, 104, 32, 58, 61, 32, 117, 110, 101, 115, 99, 97, 112, 101, 65, 116, 116, 114, 80, 97, 116, 116, 101, 114, 110, 40, 107, 110, 111, 119, 110, 46, 80, 97, 116, 104, 41, 32, 124, 32, 33, 116, 114, 97, 99, 107, 78, 111, 77, 111, 100, 105, 102, 121, 65, 116, 116, 114, 115, 70, 108, 97, 103],
+       -- true | !trackNoModifyAttrsFlag && relpath == "." && unescapeAttrPattern(known.Path) == pattern && path.Dir(filepath.ToSlash(known.Source.Path)) == "."
+       [116, 114, 117, 101, 32, 124, 32, 33, 116, 114, 97, 99, 107, 78, 111, 77, 111, 100, 105, 102, 121, 65, 116, 116, 114, 115, 70, 108, 97, 103, 32, 38, 38, 32, 114, 101, 108, 112, 97, 116, 104, 32, 61, 61, 32, 34, 46, 34, 32, 38, 38, 32, 117, 110, 101, 115, 99, 97, 112, 101, 65, 116, 116, 114, 80, 97, 116, 116, 101, 114, 110, 40, 107, 110, 111, 119, 110, 46, 80, 97, 116, 104, 41, 32, 61, 61, 32, 112, 97, 116, 116, 101, 114, 110, 32, 38, 38, 32, 112, 97, 116, 104, 46, 68, 105, 114, 40, 102, 105, 108, 101, 112, 97, 116, 104, 46, 84, 111, 83, 108, 97, 115, 104, 40, 107, 110, 111, 119, 110, 46, 83, 111, 117, 114, 99, 101, 46, 80, 97, 116, 104, 41, 41, 32, 61, 61, 32, 34, 46, 34]
+      ] := by decide
+
 end C19
